@@ -350,15 +350,22 @@ def sem_validate(ctx, acc, name, trace, kinds, timeout=3000, consts=''):
     acc.programs = getattr(acc, 'programs', 0) + ncompiled
     acc.file_evals = getattr(acc, 'file_evals', 0) + nfiles
     acc.distinct += len(set(json.dumps(r['t'], sort_keys=True) for r in recs))
+    unmodelled = [v for v in verdicts if 'unmodelled' in v['kinds']]
+    nfail0 = len(acc.failures)
     for v in verdicts:
         if 'unmodelled' in v['kinds']:
-            raise ctx.t.ToolError('program uses a construct outside the runtime model (record %d of %s): %s' % (v['idx'], name, v.get('info')))
+            continue
         if v['kinds']:
             r = recs[v['idx'] - 1]
             f = {'kinds': v['kinds'], 'tree': r['t'], 'o': r['o'], 'info': v.get('info'), 'file': v.get('file'), 'stage': name,
                  'compile': r['c']['st'], 'text': ctx.t.text_of(r['c']['renders'][0].get('text', [])) if r['c']['st'] == 'ok' else ctx.t.text_of(r['c'].get('msg', []))}
             acc.failures.extend(keep([f], kinds))
             stage_failed = True
+    if unmodelled and len(acc.failures) == nfail0:
+        # a program outside the runtime model while nothing else is wrong in the stage: the model has to be extended
+        # (when the stage HAS failures, a changed program that also leaves the model is part of the same story)
+        v = unmodelled[0]
+        raise ctx.t.ToolError('program uses a construct outside the runtime model (record %d of %s): %s' % (v['idx'], name, v.get('info')))
     if ncompiled > 0 and nfiles == 0 and 'Static = TRUE' not in consts and not any(v['kinds'] for v in verdicts):
         # vacuity guard: programs were compiled, nothing was found wrong with them, and not one was executed on a file
         raise ctx.t.ToolError('stage %s: %d programs compiled, none executed (all held to be of unspecified meaning?)' % (name, ncompiled))
@@ -418,6 +425,8 @@ def c02(ctx):
     gt_sem(ctx, acc, 'c02texts', 'texts2', pick(ctx, 2, 15), SEM_KINDS | {'refused-supported', 'accepted-unsupported'}, emit=('EmitTree', 'EmitTexts2'))
     gt_sem(ctx, acc, 'c02ops', 'ops', pick(ctx, 3, 4), SEM_KINDS, extra_rec=['--warmup'])
     gt_sem(ctx, acc, 'c02pairs', 'pairs', 2, SEM_KINDS, consts='CONSTANT MaxFiles = 60\nCONSTANT Static = FALSE\n')
+    # chains with 15..30 resources (indices of two digits and more) executed on three files
+    t_sem(ctx, acc, 'c02mid', ['--count', str(pick(ctx, 30, 300)), '--seed', str(ctx.seed + 5), '--profile', 'chain', '--size', '30'], SEM_KINDS, consts='CONSTANT MaxFiles = 3\nCONSTANT Static = FALSE\n')
     t_sem(ctx, acc, 'c02rand', ['--count', str(pick(ctx, 500, 20000)), '--seed', str(ctx.seed), '--size', '12', '--no-direct'], SEM_KINDS)
     return tv_result(acc, 'every supported primary alone with every generated member of its argument language plus 50 boundary-rich arguments, as trees and WRITTEN AS TEXT (read by the real parser, judged against the tree the specification gives for the text); all trees up to %d nodes over 8 representative primaries and not/and/or/list; seeded random trees up to 12 nodes over the full supported vocabulary; each program executed on the directed files of Backend.tla DirectedFiles (3 base files + every leaf variant around each)' % pick(ctx, 3, 4), [])
 
